@@ -16,6 +16,7 @@ import (
 	cruntime "github.com/cosi-project/runtime/pkg/controller/runtime"
 	"github.com/cosi-project/runtime/pkg/controller/runtime/options"
 	"github.com/cosi-project/runtime/pkg/resource"
+	"github.com/cosi-project/runtime/pkg/resource/kvutils"
 	"github.com/cosi-project/runtime/pkg/state"
 	"github.com/cosi-project/runtime/pkg/state/impl/inmem"
 	"github.com/cosi-project/runtime/pkg/state/impl/namespaced"
@@ -32,11 +33,12 @@ type heapOp struct {
 	K    string `json:"k,omitempty"`
 	X    string `json:"x,omitempty"`
 	How  string `json:"how,omitempty"` // copy: deep | struct
+	Via  string `json:"via,omitempty"` // label / annotation mutations: "" = Set/Delete, "do" = through the batch API Do()
 }
 
 type heapCase struct {
-	Flavour string `json:"flavour"` // plain | inmem | remote | cached
-	Prog    []heapOp  `json:"prog"`
+	Flavour string   `json:"flavour"` // plain | inmem | remote | cached
+	Prog    []heapOp `json:"prog"`
 }
 
 func renderVal(r resource.Resource) string {
@@ -252,13 +254,29 @@ func runHeapCase(t *testing.T, c heapCase) (coq string, problems []string, flags
 
 				switch o.Mut {
 				case "setlabel":
-					md.Labels().Set(o.K, o.X)
+					if o.Via == "do" {
+						md.Labels().Do(func(tmp kvutils.TempKV) { tmp.Set(o.K, o.X) })
+					} else {
+						md.Labels().Set(o.K, o.X)
+					}
 				case "dellabel":
-					md.Labels().Delete(o.K)
+					if o.Via == "do" {
+						md.Labels().Do(func(tmp kvutils.TempKV) { tmp.Delete(o.K) })
+					} else {
+						md.Labels().Delete(o.K)
+					}
 				case "setannot":
-					md.Annotations().Set(o.K, o.X)
+					if o.Via == "do" {
+						md.Annotations().Do(func(tmp kvutils.TempKV) { tmp.Set(o.K, o.X) })
+					} else {
+						md.Annotations().Set(o.K, o.X)
+					}
 				case "delannot":
-					md.Annotations().Delete(o.K)
+					if o.Via == "do" {
+						md.Annotations().Do(func(tmp kvutils.TempKV) { tmp.Delete(o.K) })
+					} else {
+						md.Annotations().Delete(o.K)
+					}
 				case "addfin":
 					md.Finalizers().Add(o.X)
 				case "remfin":
@@ -308,7 +326,7 @@ func runHeapCase(t *testing.T, c heapCase) (coq string, problems []string, flags
 				}
 
 				// hand a copy with the right identity and version to the state; the model stores the value of var V
-				obj := vars[o.V].(*Res)                                                             //nolint:forcetypeassert
+				obj := vars[o.V].(*Res) //nolint:forcetypeassert
 				send := &Res{md: resource.NewMetadata("n1", "T", id(o.Slot), resource.VersionUndefined), spec: obj.spec}
 				send.md.SetPhase(obj.md.Phase())
 				send.md.Finalizers().Set(*obj.md.Finalizers())
@@ -425,6 +443,10 @@ func genHeapCase(r *rng) heapCase {
 			m := heapOp{Op: "mut", V: v, Mut: pick(r, muts), K: pick(r, keys), X: pick(r, vals)}
 
 			switch m.Mut {
+			case "setlabel", "dellabel", "setannot", "delannot":
+				if r.chance(1, 3) {
+					m.Via = "do"
+				}
 			case "addfin", "remfin":
 				m.X = pick(r, []string{"f1", "f2", "f3", "f4", "f5", "f6", "f7"})
 			case "phase":
